@@ -127,3 +127,82 @@ class WarningLog:
 
     def messages(self):
         return [str(w.message) for w in self.log]
+
+
+# ---------------------------------------------------------------------------------------------
+# Table(N, C): the per-hit table of DESIGN.md section 3
+# ---------------------------------------------------------------------------------------------
+NAMES = ['a', 'b', 'c', 'd']
+
+
+class Table:
+    """N rows; ceilometer of each row chosen by a fork among C names; dt, height (NaN allowed),
+    type symbolic."""
+
+    def __init__(self, E, N, C=2, tag='', nan=True, tmin=-1, tmax=4, hmin=0, hmax=100000, names=None,
+                 distinct_dt=False, accepted=True, dt_range=None):
+        self.N, self.C = N, C
+        self.names = list(names or NAMES[:C])
+        self.ci = [E.choose(C, '%sceilo%d' % (tag, i)) for i in range(N)]
+        self.ceilo = [self.names[k] for k in self.ci]
+        self.dt = [E.real('%sdt%d' % (tag, i)) for i in range(N)]
+        self.height = [E.real('%sh%d' % (tag, i), nan=nan) for i in range(N)]
+        self.type = [E.int('%st%d' % (tag, i), tmin, tmax) for i in range(N)]
+        for h in self.height:
+            if hmin is not None:
+                E.assume(Or(isnan(h), h >= hmin))
+            if hmax is not None:
+                E.assume(Or(isnan(h), h < hmax))
+        if dt_range:
+            for d in self.dt:
+                E.assume(And(d >= dt_range[0], d <= dt_range[1]))
+        if distinct_dt:
+            for i in range(N):
+                for j in range(i):
+                    E.assume(Not(self.dt[i] == self.dt[j]))
+        if accepted:
+            E.assume(self.accepted(), 'input table accepted by the consistency check (no duplicated row, no 0/non-0 '
+                                      'and no VV/non-VV types within one (ceilometer, time))')
+
+    def same_meas(self, i, j):
+        return And(self.ci[i] == self.ci[j], self.dt[i] == self.dt[j])
+
+    def rejected(self):
+        """The documented refusal conditions of the consistency check, as a formula over the rows."""
+        bad = []
+        for i in range(self.N):
+            for j in range(i):
+                bad.append(And(self.same_meas(i, j), same_float(self.height[i], self.height[j]),
+                               self.type[i] == self.type[j]))
+                for t in (0, -1):
+                    bad.append(And(self.same_meas(i, j), Or(And(self.type[i] == t, Not(self.type[j] == t)),
+                                                          And(self.type[j] == t, Not(self.type[i] == t)))))
+        return Or(bad) if bad else False
+
+    def accepted(self):
+        return Not(self.rejected())
+
+    def cols(self):
+        return {'ceilo': list(self.ceilo), 'dt': list(self.dt), 'height': list(self.height), 'type': list(self.type)}
+
+    def frame(self, index=None, extra=None, order=None):
+        c = self.cols()
+        if extra:
+            c.update(extra)
+        if order:
+            c = {k: c[k] for k in order}
+        return frame(c, index=index)
+
+
+def match_rows(out_vals, in_vals):
+    """For each output value, the position of the input value it is (identity of the term in the shim
+    world, equality in the real world); None if it is none of them."""
+    res = []
+    for o in out_vals:
+        hit = None
+        for i, v in enumerate(in_vals):
+            if (o is v) or (not is_sym(o) and not is_sym(v) and o == v):
+                hit = i
+                break
+        res.append(hit)
+    return res
